@@ -155,6 +155,7 @@ func (r *schemaLoader) resolveRef(ref *Ref, target interface{}, basePath string)
 			return err
 		}
 	}
+	verifResolved(ref, basePath, (ref.IsRoot() || ref.HasFragmentOnly) && root != nil, res)
 	return swag.DynamicJSONToStruct(res, target)
 }
 
@@ -173,6 +174,7 @@ func (r *schemaLoader) load(refURL *url.URL) (interface{}, url.URL, bool, error)
 		return data, toFetch, fromCache, nil
 	}
 
+	verifYield("load.miss")
 	b, err := r.context.loadDoc(normalized)
 	if err != nil {
 		return nil, url.URL{}, false, err
@@ -182,6 +184,7 @@ func (r *schemaLoader) load(refURL *url.URL) (interface{}, url.URL, bool, error)
 	if err := json.Unmarshal(b, &doc); err != nil {
 		return nil, url.URL{}, false, err
 	}
+	verifYield("load.set")
 	r.cache.Set(normalized, doc)
 
 	return doc, toFetch, fromCache, nil
@@ -251,6 +254,7 @@ func (r *schemaLoader) deref(input interface{}, parentRefs []string, basePath st
 		return nil
 	}
 
+	verifStep("hop", parentRefs, normalizedRef.String(), basePath)
 	parentRefs = append(parentRefs, normalizedRef.String())
 	return r.deref(input, parentRefs, normalizedBasePath)
 }
